@@ -2,3 +2,4 @@ pub mod aead;
 pub mod chacha;
 pub mod poly1305;
 pub mod big;
+pub mod ed25519;
